@@ -180,7 +180,13 @@ def aware_datetimes(rng, n):
     for _ in range(n):
         off = rng.choice([0, 60, -60, 330, -210, 345, 840, -720, 765, -30, 30, rng.randrange(-1439, 1440)])
         name = rng.choice([None, "UTC", "EST", "X<Y", "A&B", ""])
-        tz = datetime.timezone(datetime.timedelta(minutes=off), name) if name is not None else datetime.timezone(datetime.timedelta(minutes=off))
+        delta = datetime.timedelta(minutes=off)
+        r = rng.random()
+        if r < 0.25:        # offsets with a seconds / microseconds part (historical local mean times, e.g. Amsterdam +0:19:32): still written h[.mm]
+            delta = rng.choice([datetime.timedelta(minutes=19, seconds=32), -datetime.timedelta(minutes=19, seconds=32), datetime.timedelta(hours=1, microseconds=500000),
+                                -datetime.timedelta(hours=1, microseconds=500000), datetime.timedelta(seconds=1), -datetime.timedelta(seconds=1), datetime.timedelta(hours=5, minutes=30, seconds=59),
+                                -datetime.timedelta(hours=3, minutes=29, seconds=30, microseconds=1), datetime.timedelta(minutes=off, seconds=rng.randrange(60), microseconds=rng.choice([0, 1, 500000, 999999]))])
+        tz = datetime.timezone(delta, name) if name is not None else datetime.timezone(delta)
         us = rng.choice([0, 499, 500, 999499, 999500, 999999, rng.randrange(10 ** 6)])
         y = rng.choice([1000, 1900, 1999, 2000, 2024, 2200, 9999, rng.randrange(1000, 10000)])
         mo = rng.randrange(1, 13)
@@ -336,10 +342,11 @@ def run(rep, tier, rng):
 
     # ---- 5. date-times and times (implementation and oracle only; the model is the C09 engine's)
     dtc, tc = T.DateTime(), T.Time()
-    for dt in aware_datetimes(rng, 8 * K):
-        for conv, v, b in ((dtc, dt, {"type": "DateTime"}), (tc, dt.timetz(), {"type": "Time"})):
+    ldtc, ltc = T.ListElement(T.DateTime()), T.ListElement(T.Time(required=True))
+    for k, dt in enumerate(aware_datetimes(rng, 8 * K)):
+        for conv, v, b in ((dtc, dt, {"type": "DateTime"}), (tc, dt.timetz(), {"type": "Time"})) + (((ldtc, dt, {"type": "DateTime"}), (ltc, dt.timetz(), {"type": "Time"})) if k % 3 == 0 else ()):
             out = S.call(T, conv, "unconvert", v)
-            rep.count((b["type"], repr(v)), nontrivial=(out[0] == "ok"), kind="%s.unconvert:%s" % (b["type"], out[0]))
+            rep.count((b["type"], conv is ldtc or conv is ltc, repr(v)), nontrivial=(out[0] == "ok"), kind="%s.unconvert:%s" % (b["type"], out[0]))
             if out[0] == "ok" and not lexical_ok(b, out[1]):
                 key = "%s.unconvert:lexical" % b["type"]
                 fails.append(C.Failure(key, "%s.unconvert(%r) wrote %r" % (b["type"], v, out[1]), {"kind": "datetime", "type": b["type"], "value": repr(v), "observed": out[1]}))
@@ -380,6 +387,13 @@ def replay(obj):
             bad = not lexical_ok({"type": "Decimal"}, txt)
         except Exception as e:
             print("replay BAL(value=%r) refused: %r" % (d, e))
+    elif r.get("kind") == "datetime" and str(r.get("value", "")).startswith("datetime."):
+        v = eval(r["value"], {"datetime": datetime})          # the repr of an aware datetime / time written by this check
+        b = {"type": r["type"]}
+        for conv in ((T.DateTime(), T.ListElement(T.DateTime())) if r["type"] == "DateTime" else (T.Time(), T.ListElement(T.Time()))):
+            out = S.call(T, conv, "unconvert", v)
+            print("replay %s.unconvert(%r) -> %r" % (type(conv).__name__, v, out))
+            bad = bad or (out[0] == "ok" and not lexical_ok(b, out[1]))
     else:
         print("replay: implementation-only case %r (re-run bin/check C11)" % (r,))
         bad = True
